@@ -441,7 +441,11 @@ spif_mbuff_cmp(spif_mbuff_t self, spif_mbuff_t other)
     int c;
 
     SPIF_OBJ_COMP_CHECK_NULL(self, other);
-    c = memcmp(SPIF_MBUFF_BUFF(self), SPIF_MBUFF_BUFF(other), MIN(self->len, other->len));
+    c = ((self->len && other->len) ? (memcmp(SPIF_MBUFF_BUFF(self), SPIF_MBUFF_BUFF(other), MIN(self->len, other->len))) : (0));
+    if (c == 0) {
+        /* One is a prefix of the other:  the shorter one sorts first. */
+        return ((self->len < other->len) ? (SPIF_CMP_LESS) : ((self->len > other->len) ? (SPIF_CMP_GREATER) : (SPIF_CMP_EQUAL)));
+    }
     return SPIF_CMP_FROM_INT(c);
 }
 
@@ -503,9 +507,16 @@ spif_mbuff_ncmp(spif_mbuff_t self, spif_mbuff_t other, spif_memidx_t cnt)
 
     SPIF_OBJ_COMP_CHECK_NULL(self, other);
     if (cnt > self->len || cnt > other->len) {
-        cnt = MIN(self->len, other->len);
+        spif_memidx_t l1 = MIN(cnt, self->len), l2 = MIN(cnt, other->len);
+
+        cnt = MIN(l1, l2);
+        c = ((cnt > 0) ? (memcmp(SPIF_MBUFF_BUFF(self), SPIF_MBUFF_BUFF(other), cnt)) : (0));
+        if (c == 0) {
+            return ((l1 < l2) ? (SPIF_CMP_LESS) : ((l1 > l2) ? (SPIF_CMP_GREATER) : (SPIF_CMP_EQUAL)));
+        }
+        return SPIF_CMP_FROM_INT(c);
     }
-    c = memcmp(SPIF_MBUFF_BUFF(self), SPIF_MBUFF_BUFF(other), cnt);
+    c = ((cnt > 0) ? (memcmp(SPIF_MBUFF_BUFF(self), SPIF_MBUFF_BUFF(other), cnt)) : (0));
     return SPIF_CMP_FROM_INT(c);
 }
 
